@@ -15,24 +15,28 @@ package config
 //@   modifies contents(g.nodes), contents(g.from), contents(g.to), cdom, cval
 //@   ensures #C18.error-means-nil result#1 != nil ==> result == nil
 //@   ensures #C18.accepted-wf result#1 == nil ==> result == g && wfS(g) && depsAre(g) && hasWork(g)
+//@   ensures #C18.pipelines-are-inclusions result#1 == nil ==> (forall n string :: n in g.nodes && g.nodes[n].Pipeline != nil ==> (exists i int :: 0 <= i && i < len(stages) && stages[i] != nil && stages[i].Task == "" && g.nodes[n].Pipeline == cfg.Pipelines[stages[i].Pipeline]))
 //@   ensures #C08.stage-owns-task result#1 == nil ==> (forall n string :: n in g.nodes && g.nodes[n].Task != nil ==> fresh(g.nodes[n].Task))
 //@   ensures #C08.tasks-distinct result#1 == nil ==> (forall n string, m string :: n in g.nodes && m in g.nodes && n != m && g.nodes[n].Task != nil ==> g.nodes[n].Task != g.nodes[m].Task)
 //@   loop 1 "range stages"
 //@     invariant #same g == g0 && cfg == cfg0 && stages == stages0 && wfG(g) && cfgOK(cfg)
 //@     invariant #nodes forall n string :: n in g.nodes ==> g.nodes[n] != nil && g.nodes[n].Name == n && (g.nodes[n].Pipeline != nil || g.nodes[n].Task != nil)
 //@     invariant #deps-in forall n string :: n in g.nodes ==> seqeq(g.to[n], g.nodes[n].DependsOn)
+//@     invariant #C18.pipelines-are-inclusions (forall n string :: n in g.nodes && g.nodes[n].Pipeline != nil ==> (exists i int :: 0 <= i && i < rangeindex + 1 && stages[i] != nil && stages[i].Task == "" && g.nodes[n].Pipeline == cfg.Pipelines[stages[i].Pipeline]))
 //@     invariant #deps-out forall n string :: !(n in g.nodes) ==> len(g.to[n]) == 0
 //@     invariant #C08.owned forall n string :: n in g.nodes && g.nodes[n].Task != nil ==> fresh(g.nodes[n].Task) && allocated(g.nodes[n].Task)
 //@     invariant #C08.distinct forall n string, m string :: n in g.nodes && m in g.nodes && n != m && g.nodes[n].Task != nil ==> g.nodes[n].Task != g.nodes[m].Task
 //@   loop 2 "range g.Nodes()"
-//@     invariant #same g == g0 && wfG(g)
+//@     invariant #same g == g0 && wfG(g) && cfg == cfg0 && stages == stages0
+//@     invariant #C18.pipelines-are-inclusions (forall n string :: n in g.nodes && g.nodes[n].Pipeline != nil ==> (exists i int :: 0 <= i && i < len(stages) && stages[i] != nil && stages[i].Task == "" && g.nodes[n].Pipeline == cfg.Pipelines[stages[i].Pipeline]))
 //@     invariant #nodes forall n string :: n in g.nodes ==> g.nodes[n] != nil && g.nodes[n].Name == n && (g.nodes[n].Pipeline != nil || g.nodes[n].Task != nil)
 //@     invariant #deps-in forall n string :: n in g.nodes ==> seqeq(g.to[n], g.nodes[n].DependsOn)
 //@     invariant #C08.owned forall n string :: n in g.nodes && g.nodes[n].Task != nil ==> fresh(g.nodes[n].Task) && allocated(g.nodes[n].Task)
 //@     invariant #C08.distinct forall n string, m string :: n in g.nodes && m in g.nodes && n != m && g.nodes[n].Task != nil ==> g.nodes[n].Task != g.nodes[m].Task
 //@     invariant #C18.checked forall n string :: $seen[n] ==> (forall j int :: 0 <= j && j < len(g.nodes[n].DependsOn) ==> g.nodes[n].DependsOn[j] in g.nodes)
 //@   loop 3 "range stage.DependsOn"
-//@     invariant #same g == g0 && wfG(g) && stage != nil
+//@     invariant #same g == g0 && wfG(g) && stage != nil && cfg == cfg0 && stages == stages0
+//@     invariant #C18.pipelines-are-inclusions (forall n string :: n in g.nodes && g.nodes[n].Pipeline != nil ==> (exists i int :: 0 <= i && i < len(stages) && stages[i] != nil && stages[i].Task == "" && g.nodes[n].Pipeline == cfg.Pipelines[stages[i].Pipeline]))
 //@     invariant #nodes forall n string :: n in g.nodes ==> g.nodes[n] != nil && g.nodes[n].Name == n && (g.nodes[n].Pipeline != nil || g.nodes[n].Task != nil)
 //@     invariant #deps-in forall n string :: n in g.nodes ==> seqeq(g.to[n], g.nodes[n].DependsOn)
 //@     invariant #C08.owned forall n string :: n in g.nodes && g.nodes[n].Task != nil ==> fresh(g.nodes[n].Task) && allocated(g.nodes[n].Task)
